@@ -11,6 +11,7 @@ type PropSpec struct {
 	Outside     []string
 	Assumptions []string
 	Replay      map[string]*ReplaySpec
+	Harness     []string // harness file prefixes (default: the property id)
 	solverDesc  string
 }
 
@@ -56,4 +57,106 @@ func init() {
 		Assumptions: []string{"go/ssa is faithful to the compiler", "engine intrinsics: map/slice/append/errors.New semantics", "z3 4.8.12"},
 		Replay:      map[string]*ReplaySpec{"*": {PkgDir: "pkg/scheduler", File: "C05_replay_test.go", Test: "TestVerifReplayC05"}},
 	})
+
+	c06jobs := func(tier string) []*Job {
+		var js []*Job
+		maxv := int64(2)
+		if tier == "thorough" {
+			maxv = 3
+		}
+		for nc := int64(1); nc <= 3; nc++ {
+			for nv := int64(0); nv <= maxv; nv++ {
+				for nb := int64(0); nb <= 2; nb++ {
+					for na := int64(0); na <= 2; na++ {
+						for cond := int64(0); cond <= 1; cond++ {
+							if tier != "thorough" && (nb == 2 && na == 2 || nc == 3 && nv == 2 && nb+na > 1) {
+								continue
+							}
+							js = append(js, &Job{Pkg: pkgRunner, Func: "VerifC06Task", Args: []int64{nc, nv, nb, na, cond}, Timeout: 30 * time.Minute})
+						}
+					}
+				}
+			}
+		}
+		return js
+	}
+	c06bounds := map[string]interface{}{
+		"quick":    "tasks with 1..3 commands x 0..2 variations x 0..2 before x 0..2 after x condition absent/present (a few of the largest shapes only in thorough); per executed command a symbolic outcome: success, exit status (all of 1..255 at once), or - for tasks without repeated commands - a non-status error; allow_failure symbolic",
+		"thorough": "all shapes with 1..3 commands x 0..3 variations x 0..2 before x 0..2 after x condition absent/present",
+	}
+	c06outside := []string{"that the mvdan.cc/sh interpreter runs exactly one command per Execute call and reports its status (exercised only by the native replays)", "more than 3 commands / 3 variations / 2 hooks", "template rendering (utils.RenderString stubbed as identity; commands contain no templates)", "execution-context hooks (C14)"}
+	c06assume := []string{"stub: (*executor.DefaultExecutor).Execute returns an arbitrary outcome per call and records the call", "stub: executor.NewDefaultExecutor returns a dummy", "stub: utils.RenderString is the identity", "logrus calls are no-ops", "go/ssa faithful; gosym intrinsics (sync, sync.Map, context, fmt, strings, bytes.Buffer) as listed"}
+	register(&PropSpec{ID: "C06", Jobs: c06jobs, Bounds: c06bounds, Outside: c06outside, Assumptions: c06assume,
+		Covers: []string{"C06.skipped", "C06.command-failed", "C06.succeeded", "C06.before-failed", "C06.allowed-failure-continued"},
+		Replay: map[string]*ReplaySpec{"*": {PkgDir: "pkg/runner", File: "C06_replay_test.go", Test: "TestVerifReplayC06"}}})
+
+	c19jobs := func(tier string) []*Job {
+		var js []*Job
+		pref := func(nw, maxb, wide int64) {
+			parts := int64(1)
+			for i := int64(0); i < nw; i++ {
+				parts *= maxb + 1
+			}
+			for p := int64(0); p < parts; p++ {
+				js = append(js, &Job{Pkg: pkgOutput, Func: "VerifC19Prefixed", Args: []int64{nw, maxb, wide, p}, Timeout: 60 * time.Minute, MaxSteps: 50000000})
+			}
+		}
+		raw := func(nw, maxb int64) {
+			parts := int64(1)
+			for i := int64(0); i < nw; i++ {
+				parts *= maxb + 1
+			}
+			for p := int64(0); p < parts; p++ {
+				js = append(js, &Job{Pkg: pkgOutput, Func: "VerifC19Raw", Args: []int64{nw, maxb, p}, Timeout: 10 * time.Minute})
+			}
+		}
+		if tier == "thorough" {
+			pref(3, 3, 1)
+			pref(2, 4, 1)
+			pref(4, 2, 0)
+			raw(3, 3)
+		} else {
+			pref(2, 3, 1)
+			pref(3, 2, 0)
+			raw(2, 2)
+		}
+		return js
+	}
+	register(&PropSpec{ID: "C19", Jobs: c19jobs,
+		Covers: []string{"C19.several-lines", "C19.more-lines-than-writes", "C19.raw-forwarded"},
+		Bounds: map[string]interface{}{
+			"quick":    "prefixed: 2 Write calls of 0..3 bytes, every byte symbolic over all values except ESC (0x1b) and 0xc2; and 3 calls of 0..2 bytes over {a,b,CR,LF}; then WriteFooter. raw: 2 calls of 0..2 arbitrary bytes",
+			"thorough": "prefixed: 3 calls x 0..3 bytes and 2 calls x 0..4 bytes (any byte except ESC/0xc2), 4 calls x 0..2 bytes over {a,b,CR,LF}; raw: 3 calls x 0..3 bytes",
+		},
+		Outside:     []string{"lines longer than bufio.Writer's 4096-byte buffer", "ANSI escape sequences (ansiRegexp.ReplaceAllLiteral is modelled as the identity, which is exact only for inputs without ESC / U+009B; such bytes are excluded by assumption)", "interleaving of concurrent tasks: each task owns its decorator and every line reaches the sink in one Write call (asserted), so the concurrent claim follows if the sink's Write is atomic - assumed", "the cockpit format and format independence of task results (part (b), see DESIGN)"},
+		Assumptions: []string{"fmt.Fprintf(dst, \"%s: %s\\r\\n\", name, p) is modelled as one dst.Write of the concatenation", "aurora.Cyan is presentation only (passes the name through)", "real SSA of bufio.ScanLines, bufio.Writer, bytes.IndexByte (intrinsic, branch-free) is executed"},
+		Replay:      map[string]*ReplaySpec{"*": {PkgDir: "pkg/output", File: "C19_replay_test.go", Test: "TestVerifReplayC19"}}})
+
+	c07jobs := func(tier string) []*Job {
+		js := c06jobs(tier)
+		maxn := int64(3)
+		if tier == "thorough" {
+			maxn = 4
+		}
+		for n := int64(0); n <= maxn; n++ {
+			if n > 0 {
+				js = append(js, &Job{Pkg: pkgMain, Func: "VerifC07Root", Args: []int64{n}, Timeout: 30 * time.Minute})
+			}
+			js = append(js, &Job{Pkg: pkgMain, Func: "VerifC07Run", Args: []int64{n}, Timeout: 30 * time.Minute})
+			js = append(js, &Job{Pkg: pkgMain, Func: "VerifC07RunTask", Args: []int64{n}, Timeout: 30 * time.Minute})
+		}
+		js = append(js, &Job{Pkg: pkgMain, Func: "VerifC07Main", Timeout: 5 * time.Minute})
+		return js
+	}
+	register(&PropSpec{ID: "C07", Jobs: c07jobs, Harness: []string{"C06", "C07"},
+		Covers: []string{"C06.command-failed", "C06.succeeded", "C06.skipped", "C07.cli-failure", "C07.cli-success", "C07.cli-two-targets", "C07.main-exits-nonzero-on-failure", "C07.main-returns-normally-on-success"},
+		Bounds: map[string]interface{}{
+			"quick":    map[string]interface{}{"task level": c06bounds["quick"], "cli level": "argument vectors of 0..3 words, each a symbolic member of {t1, t2, p1, unknown, --}; every target's result symbolic; root action, `run`, `run task`; main with run() succeeding/failing"},
+			"thorough": map[string]interface{}{"task level": c06bounds["thorough"], "cli level": "argument vectors of 0..4 words"},
+		},
+		Outside:     append([]string{"urfave/cli delivering the action's error as app.Run's result, flag parsing", "logrus.Fatal exiting with status 1 (its documented contract)", "the literal target name `pipeline`, which `run` skips by design", "stage level (a failing task fails the pipeline run) is decided by C02's obligation on Schedule's result"}, c06outside...),
+		Assumptions: append([]string{"stubs: cli.Context.Args/NArg/Bool/StringSlice backed by the harness vector; runTask/runPipeline replaced by recording stand-ins with symbolic results; run() replaced in the main harness"}, c06assume...),
+		Replay: map[string]*ReplaySpec{
+			"VerifC06Task": {PkgDir: "pkg/runner", File: "C06_replay_test.go", Test: "TestVerifReplayC06"},
+			"*":            {PkgDir: "cmd/taskctl", File: "C07_cli_replay_test.go", Test: "TestVerifReplayC07"}}})
 }
